@@ -321,9 +321,14 @@ fn opt_type(s: Sense) -> OptimizationType {
 /// The rooc `LinearModel` for a `GenModel`, through the public constructor only.
 pub fn to_linear_model(m: &GenModel) -> LinearModel {
     let variables: Vec<String> = m.vars.iter().map(|v| v.name.clone()).collect();
-    let domain: IndexMap<String, DomainVariable> = m
-        .vars
-        .iter()
+    // The domain is a map keyed by name: its insertion order carries no meaning and need
+    // not be the column order (a deserialised or re-assembled model has any order). Insert
+    // in an order that is a pure function of the names, so that code which pairs columns
+    // with domains by position instead of by name is exposed.
+    let mut order: Vec<&crate::model::Var> = m.vars.iter().collect();
+    order.sort_by_key(|v| crate::rng::fnv(v.name.as_bytes()));
+    let domain: IndexMap<String, DomainVariable> = order
+        .into_iter()
         .map(|v| {
             (
                 v.name.clone(),
